@@ -116,6 +116,81 @@ struct Plan {
     label: String,
 }
 
+/// The real test programs of the repository's .dig fixtures: parsed by the reference grammar,
+/// run by the reference interpreter, compared row by row with the subject. Sources are cut out
+/// of the XML by a plain text scan (independent of the subject's .dig loader); the signal list
+/// is the loader's (C16 checks the loader).
+fn fixtures(deadline: &Deadline) -> Stats {
+    let mut cases: Vec<(String, String, Vec<Sig>)> = vec![];
+    for f in ["Counter.dig", "74779.dig", "adder.dig", "74162.dig", "74181.dig"] {
+        let Ok(doc) = std::fs::read_to_string(format!("/repo/tests/data/{f}")) else { continue };
+        let Ok(file) = digital_test_runner::dig::File::parse(&doc) else { continue };
+        let sigs: Vec<Sig> = file
+            .signals
+            .iter()
+            .map(|s| Sig {
+                name: s.name.clone(),
+                bits: s.bits,
+                kind: match &s.typ {
+                    digital_test_runner::SignalType::Input { default } => Kind::In(V::from(*default)),
+                    digital_test_runner::SignalType::Bidirectional { default } => Kind::Bidir(V::from(*default)),
+                    _ => Kind::Out,
+                },
+            })
+            .collect();
+        let mut rest = doc.as_str();
+        let mut n = 0;
+        while let Some(a) = rest.find("<dataString>") {
+            let Some(b) = rest[a..].find("</dataString>") else { break };
+            let raw = &rest[a + 12..a + b];
+            let src = raw.replace("&lt;", "<").replace("&gt;", ">").replace("&quot;", "\"").replace("&apos;", "'").replace("&amp;", "&");
+            cases.push((format!("{f} test {n}"), src, sigs.clone()));
+            n += 1;
+            rest = &rest[a + b..];
+        }
+    }
+    par_range("fixture programs (every Testcase of the repository's .dig files), 3 constant device answers", cases.len() as u64 * 3, deadline, |u, st| {
+        let (name, src, sigs) = &cases[(u / 3) as usize];
+        let val = [0i64, 1, 5][(u % 3) as usize];
+        let prog = match crate::refgrammar::parse(src) {
+            Ok(p) => p,
+            Err(why) => {
+                // the reference grammar does not know the statement: only note it
+                st.disagreements += 1;
+                st.witness("fixture_not_parsed_by_the_reference_grammar");
+                let _ = why;
+                return;
+            }
+        };
+        if bind_judgement(&prog, sigs).is_err() {
+            st.witness("fixture_rejected_by_the_reference_binder");
+            return;
+        }
+        let ans: Answer = sigs.iter().filter(|s| s.is_out()).map(|s| (s.name.clone(), V::Num(val))).collect();
+        let script = vec![Step::Ans(ans)];
+        let r = ref_run_fuel(&prog, sigs, &script, 200_000, 20_000);
+        st.evals += 1;
+        if r.end != RefEnd::Done && r.end != RefEnd::Stopped {
+            st.out_of_scope += 1;
+            return;
+        }
+        st.nontrivial += 1;
+        st.witness("fixture_program_compared");
+        let mut opts = RunOpts::new(r.items.len() + 1);
+        opts.repeat_last = true;
+        opts.budget = 2_000_000;
+        let obs = run_dynamic(src, sigs, true, &script, &opts);
+        st.steps += obs.items.len() as u64;
+        if let Some((_, m)) = run_mismatch(&r, &obs, Proj::ROWS, None) {
+            let class = format!("fixture: {}", classify(&m));
+            st.violation(&class, (9 << 56) + u, format!("{name}, every output answers {val}\nfirst difference at {m}"), || dyn_replay(src, sigs, true, &script, &opts, ref_items_brief(&r).into_iter().take(40).collect(), &obs, &m));
+        }
+        if u == 0 {
+            st.sample(|| json!({"fixture": name, "rows": r.items.len()}));
+        }
+    })
+}
+
 pub fn run(id: &'static str, tier: Tier, seed: u64) -> i32 {
     let started = Instant::now();
     let c18 = id == "C18";
@@ -226,6 +301,9 @@ pub fn run(id: &'static str, tier: Tier, seed: u64) -> i32 {
         total.merge(st);
     }
     let _ = Step::Fault(0);
+    if !c18 {
+        total.merge(fixtures(&deadline));
+    }
     if c18 {
         // vars() when the caller carries on after an error item whose call was made (a virtual
         // signal that fails for one particular answer): explicit-state exploration over the answers
